@@ -1,12 +1,10 @@
 (* Statements about the cross-thread free model that are NOT proved (kept as Definitions so that nobody
-   mistakes them for theorems).  Every theorem of C02 / C08 / C10conc is proved; what is open is only the
-   relation between the boolean checkers and the Prop invariant. *)
+   mistakes them for theorems).  Every theorem of C02 / C08 / C10conc is proved, and the boolean checker is
+   proved sound (Proofs/TFreeCheck.v: inv_b c = true -> Inv c /\ InvT c).  Open: its completeness, which no
+   theorem and no tool depends on (it is tested: inv_b holds after every step of the simulator). *)
 From Coq Require Import NArith List Bool.
 From MiV Require Import Model.TFree Proofs.TFreeInv.
 Import ListNotations.
 Local Open Scope N_scope.
 
-(* the boolean checkers decide the invariant.  They are used as test oracles (simulator, lockstep replay of
-   real-code states); the theorems do not depend on them. *)
-Definition inv_b_sound_stmt : Prop := forall c, inv_b c = true -> Inv c /\ InvT c.
 Definition inv_b_complete_stmt : Prop := forall c, Inv c -> InvT c -> inv_b c = true.
